@@ -87,7 +87,10 @@ for k, nm in enumerate(("k1c1", "k3c3", "m2e2", f"n{gen}g{gen}", f"m{gen + 1}f{g
     res = gs.amplitude(2, "ph", nm)
     out[f"t2s_{k}"] = canon_plain(res, nm).replace(nm[:len(nm) // 2], "K").replace(nm[len(nm) // 2:], "C")
     out["targets_not_summed"] = out["targets_not_summed"] and targets_once(res, nm)
-out["M1_named"] = canon(m.isr_matrix_block(1, "ph,ph", "k2c2,l4d4"))
+# (names far away from every generation the generic indices are taken from:
+#  a name that already sits as contracted index inside a cached result is
+#  the known finding independence.named_target_vs_cached_index)
+out["M1_named"] = canon(m.isr_matrix_block(1, "ph,ph", "k97c97,l98d98"))
 i, i0, a, b = get_symbols("i"), get_symbols("i0"), get_symbols("a"), get_symbols("b")
 x = AntiSymmetricTensor("x", (i[0], i0[0]), (a[0], b[0]))
 out["tie"] = str(x)
